@@ -42,9 +42,9 @@ FINDING_TEXT = {
                "(rmtree on a symbolic link) for a migrated component: a restart with --restageData cannot work for such components",
 }
 
-ALL_LOCS = ["in", "da", "ap", "apd", "pa", "pd", "pl", "pm", "pt", "pp", "pg", "qa", "qd", "sa"]
-ALL_METHODS = ["copy", "link", "ref", "copyout", "extract", "output"]
-ACTIONS = ["Begin", "Again", "Step", "End", "Mut", "Write", "Restart"]
+ALL_LOCS = ["in", "da", "ap", "apd", "pa", "pd", "pl", "pm", "pt", "pp", "pg", "qa", "qd", "sa", "wa"]
+ALL_METHODS = ["copy", "link", "ref", "copyout", "extract", "output", "loopref", "loopoutput"]
+ACTIONS = ["Begin", "Again", "Step", "End", "Mut", "Write", "Restart", "Iterate"]
 
 INV_ASFOUND = ["TypeOK", "LinksNameSources", "MissingFails", "MissingNotLaunched", "StagedIsCurrent", "StillADirectory", "InputsAreStaged",
                "LaunchedIsStaged"]
@@ -59,7 +59,7 @@ def tla_set(xs):
 
 BASE = dict(M1="{}", L1="{}", M2="{}", L2="{}", M3="{}", L3="{}", Lens="{1}", Shape='"any"', Reps="{FALSE}", Mig="FALSE", AltKinds="{}",
             WithLinks="FALSE", MutLocs="{}", MutHows="{}", WriteTargets="{}", MaxMut=0, MaxWrite=0, MaxRestart=0, MaxAgain=0, MaxEvents=0,
-            Restages="{}", FixSkip="FALSE", FixRestage="FALSE", GlobLiteral="TRUE", Emit="FALSE")
+            Restages="{}", Iterates="FALSE", FixSkip="FALSE", FixRestage="FALSE", GlobLiteral="TRUE", Emit="FALSE")
 
 
 def cfg(name, consts, body):
@@ -80,11 +80,11 @@ def P(ms, ls):
 
 
 def slice_consts(m1=(), l1=(), m2=(), l2=(), m3=(), l3=(), lens=(1,), shape="any", reps=(False,), mig=False, alt=(), links=False,
-                 mutlocs=(), muthows=(), writes=(), maxmut=0, maxwrite=0, maxrestart=0, maxagain=0, maxevents=0, restages=()):
+                 mutlocs=(), muthows=(), writes=(), maxmut=0, maxwrite=0, maxrestart=0, maxagain=0, maxevents=0, restages=(), iterates=False):
     return dict(M1=tla_set(m1), L1=tla_set(l1), M2=tla_set(m2), L2=tla_set(l2), M3=tla_set(m3), L3=tla_set(l3), Lens=tla_set(lens),
                 Shape='"%s"' % shape, Reps=tla_set(reps), Mig="TRUE" if mig else "FALSE", AltKinds=tla_set(alt),
                 WithLinks="TRUE" if links else "FALSE", MutLocs=tla_set(mutlocs), MutHows=tla_set(muthows), WriteTargets=tla_set(writes),
-                MaxMut=maxmut, MaxWrite=maxwrite, MaxRestart=maxrestart, MaxAgain=maxagain, MaxEvents=maxevents, Restages=tla_set(restages))
+                MaxMut=maxmut, MaxWrite=maxwrite, MaxRestart=maxrestart, MaxAgain=maxagain, MaxEvents=maxevents, Restages=tla_set(restages), Iterates="TRUE" if iterates else "FALSE")
 
 
 HOWS = ["mod", "rm", "mkfile", "mkdir"]
@@ -121,6 +121,11 @@ def slices(tier):
     S["hist-two"] = slice_consts(m1=["copy", "link"], l1=["pa", "pd"], m2=["copy", "copyout", "link"], l2=["qa", "qd"], lens=(2,),
                                  mutlocs=["pa", "qa"], muthows=["mod", "rm"], writes=["a", "d/a"],
                                  maxmut=1, maxwrite=1, maxrestart=1, maxagain=0, maxevents=2 if not th else 3, restages=(True, False))
+    # a placeholder of a loop: the latest iteration is staged, :loopref / :loopoutput check every iteration and stage nothing; the loop iterates
+    loop_m = ["copy", "link", "ref", "copyout", "loopref", "loopoutput"]
+    S["hist-loop"] = slice_consts(m1=loop_m, l1=["wa"], m2=["copy", "link"], l2=["pa", "wa"], lens=(1, 2), alt=("none", "dir") if th else ("none",),
+                                  mutlocs=["w0", "w1"], muthows=["mod", "rm", "mkfile"], writes=["o", "a"], iterates=True,
+                                  maxmut=1, maxwrite=1, maxrestart=1, maxagain=2, maxevents=4 if th else 3, restages=(True, False))
     S["migrated"] = slice_consts(mig=True, mutlocs=["pa"], writes=["a"], **dict(ev, maxrestart=2, maxevents=4))
     if th:
         S["hist-glob"] = slice_consts(m1=["copy", "link", "ref"], l1=["pg"], mutlocs=["pa"], writes=["o"], **ev)
@@ -162,13 +167,17 @@ def model_jobs(tier):
                         writes=["o", "l", "p/a", "p/l", "p/m"], maxmut=1, maxwrite=1, maxrestart=1, maxagain=1, maxevents=2, restages=(True, False))
     migc = slice_consts(mig=True, mutlocs=["pa"], muthows=["mod", "rm", "mkfile"], writes=["a"], maxmut=1, maxwrite=1, maxrestart=2, maxagain=1, maxevents=3,
                         restages=(True, False))
+    loopc = slice_consts(m1=["copy", "link", "ref", "copyout", "loopref", "loopoutput", "output"], l1=["wa"], m2=["copy", "link"], l2=["pa", "wa"], lens=(1, 2),
+                         alt=("none", "dir"), mutlocs=["w0", "w1"], muthows=["mod", "rm", "mkfile"], writes=["o", "a"], iterates=True,
+                         maxmut=1, maxwrite=1, maxrestart=1, maxagain=2, maxevents=3, restages=(True, False))
     body = lambda inv, prop: "SPECIFICATION Spec\n" + "".join("INVARIANT %s\n" % i for i in inv) + "".join("PROPERTY %s\n" % p for p in prop)
     jobs = []        # (kind, name, consts, body, property expected to fail, coverage)
     jobs.append(("hold", "asfound", base, body(INV_ASFOUND, PROP_ASFOUND), None, True))
+    jobs.append(("hold", "asfound_loop", loopc, body(INV_ASFOUND + ["FailDocumented"], PROP_ASFOUND), None, True))
     jobs.append(("hold", "asfound_tree", tree, body(INV_ASFOUND + ["FailDocumented"], PROP_ASFOUND), None, False))
     jobs.append(("hold", "asfound_mig", migc, body(INV_ASFOUND, PROP_ASFOUND), None, False))
     fixed = dict(FixSkip="TRUE", FixRestage="TRUE")
-    for nm, c in (("promise", base), ("promise_tree", tree), ("promise_mig", migc)):
+    for nm, c in (("promise", base), ("promise_tree", tree), ("promise_mig", migc), ("promise_loop", loopc)):
         jobs.append(("hold", nm, dict(c, **fixed), body(INV_ASFOUND + INV_PROMISE, PROP_ASFOUND), None, False))
     # the two findings: the promise fails on the code as found
     jobs.append(("fail", "finding_NoHalfStagedLaunch", base, "SPECIFICATION Spec\nINVARIANT NoHalfStagedLaunch\n", "NoHalfStagedLaunch", False))
@@ -230,6 +239,7 @@ def finish_model_check(chk, handle):
     if status != "ok":
         raise MachineryError("model checking failed: %s" % results)
     named = []
+    covered = {}
     for (kind, name, prop, cover), r in results:
         if kind == "fail":
             must_fail(chk, r, name, prop)
@@ -237,9 +247,11 @@ def finish_model_check(chk, handle):
         else:
             must_hold(chk, r, name)
         if cover:
-            for act in ACTIONS:
-                if not r["coverage"].get(act):
-                    raise MachineryError("action %s of DataStaging.tla never taken (vacuous run): %s" % (act, r["coverage"]))
+            for a, n in r["coverage"].items():
+                covered[a] = covered.get(a, 0) + n
+    for act in ACTIONS:
+        if not covered.get(act):
+            raise MachineryError("action %s of DataStaging.tla never taken (vacuous run): %s" % (act, covered))
     chk.cov["expected_counterexamples"] = sorted(named)
 
 
@@ -299,7 +311,7 @@ def replay_one(W, world, hd, src0, labels, expected):
         n = len(labels)
         while i < n:
             lab = tuple(labels[i])
-            if lab[0] not in ("begin", "again", "restart", "mut", "write"):
+            if lab[0] not in ("begin", "again", "restart", "mut", "write", "iter"):
                 return (False, "replay:%s:missing-step" % lab[0], "the specification takes the step %s here, the real stage-in had already ended; history %s" % (lab, labels[:i]), i, [])
             steps, box = world.apply(lab)
             for rl, rp in steps:
